@@ -45,12 +45,13 @@ def _alarm(signum, frame):
 def _eval_one(item):
     idx, case = item
     signal.signal(signal.SIGALRM, _alarm)
-    signal.alarm(CASE_TIMEOUT_S)
+    limit = getattr(_mod, "CASE_TIMEOUT_S", CASE_TIMEOUT_S)
+    signal.alarm(limit)
     try:
         res = _mod.evaluate(case)
         res = norm(res)
     except TimeoutError:
-        res = {"harness_error": "timeout after %ds" % CASE_TIMEOUT_S}
+        res = {"harness_error": "timeout after %ds" % limit}
     except HarnessError as e:
         res = {"harness_error": str(e)}
     except Exception:
